@@ -316,14 +316,17 @@ func helperSaysNonZero(ex *ssa.Extract, core ssa.Value) (string, bool) {
 		}
 		okAll := true
 		n := 0
-		for j := range exploreBlock(ifi.Block().Succs[0], nil) {
-			if r, isR := j.(*ssa.Return); isR {
-				n++
-				if v, isC := constBool(r.Results[ex.Index]); !isC || !v {
-					okAll = false
+		// the helper's own returns only (not continued into the caller)
+		withoutInline(func() {
+			for j := range exploreBlock(ifi.Block().Succs[0], nil) {
+				if r, isR := j.(*ssa.Return); isR {
+					n++
+					if v, isC := constBool(r.Results[ex.Index]); !isC || !v {
+						okAll = false
+					}
 				}
 			}
-		}
+		})
 		if okAll && n > 0 {
 			found = true
 		}
